@@ -24,7 +24,7 @@ from . import evidence, findings
 PROPS = ["C%02d" % i for i in range(1, 20)]
 
 # wall-clock budgets (seconds) inside a shard; the watchdog around a shard is 3x + 120 s.
-QUICK_BUDGET = 45
+QUICK_BUDGET = 90
 THOROUGH_BUDGET = 540
 
 
